@@ -13,22 +13,22 @@ BASE_NOTE = ("Trusted base: Lean 4.33 kernel, Mathlib v4.33 as compiled on the i
 
 P = {
  "C01": ("proof (partial): for ALL keys in [1, r-1], messages and the three suites, Sign/PopProve always return and Verify/PopVerify accept the result "
-         "(C01_Proto, C01_ProtoHB2) — conditional ONLY on the explicit hypothesis structure PairingFacts' = bilinearity (HB1), non-degeneracy (ND) and "
-         "'the model's Miller loop + final exponentiation compute that pairing' (HB1'); group orders and hash_to_G2-in-subgroup are proved. Key rejection, "
+         "(C01_Proto, C01_ProtoHB2) — conditional ONLY on the explicit hypothesis ModelBilinearCode: the pairing function the code computes is additive in each argument (HB1); "
+         "group orders, hash_to_G2-in-subgroup, non-degeneracy and representative independence are proved. Key rejection, "
          "KeyGen range are unconditional theorems. Model tied to the code by correspondence; round trips on the real code", "8.3 C01",
          "Lean theorems over the model (conditional on the named pairing hypotheses) + correspondence + round-trip predicates"),
  "C02": ("proof (partial): verify_iff — Verify/PopVerify return True iff the candidate is byte-for-byte Sign/PopProve, for all inputs and suites, plus the "
-         "rejection corollaries (-S, 2S, S+T, identity, other key/message/tag) — conditional only on PairingFacts' (HB1, ND, HB1'); canonical encodings, subgroup "
+         "rejection corollaries (-S, 2S, S+T, identity, other key/message/tag) — conditional only on ModelBilinearCode (bilinearity of the pairing the code computes); canonical encodings, subgroup "
          "checks, totality are unconditional (C04, C11)", "8.3 C02",
          "Lean theorems (conditional on the named pairing hypotheses) + correspondence on candidate classes + exactness predicate"),
  "C03": ("proof (partial): Aggregate = encoding of the group sum, order/grouping independence, error behaviour are unconditional theorems; AggregateVerify / "
-         "FastAggregateVerify accept iff the signature is the aggregate of the signers' own signatures and the suite preconditions hold — conditional only on PairingFacts'", "8.3 C03",
+         "FastAggregateVerify accept iff the signature is the aggregate of the signers' own signatures and the suite preconditions hold — conditional only on ModelBilinearCode (bilinearity of the pairing the code computes)", "8.3 C03",
          "Lean theorems (Aggregate unconditional; verification conditional on the named pairing hypotheses) + correspondence + perturbation predicates"),
  "C04": ("proof: KeyValidate/Verify/AggregateVerify/FastAggregateVerify/PopVerify NEVER raise (C04_Total.never_raises; the 'unreachable' SWU exception is proved unreachable), "
          "return False for every non-canonical / out-of-subgroup / identity input, and every pairing argument is on the curve and in the subgroup — all unconditional theorems "
          "about the model, which is tied to the code by correspondence on a malformed stream", "8.3 C04",
          "Lean theorems over the exception model + correspondence on malformed inputs + pairing-argument trace"),
- "C05": ("proof (partial): unit on infinity, refusal of off-curve arguments with exact error characterisation (4 implementations), pairing values are r-th roots of unity, and the "
+ "C05": ("proof (partial): unit on infinity, refusal of off-curve arguments with exact error characterisation (4 implementations), pairing values are r-th roots of unity, e(G2,G1) has order exactly r (kernel evaluation, thorough tier), and the "
          "scalar/negation/order corollaries of bilinearity are theorems; bilinearity itself is the named hypothesis HB1 (needs divisors; not in Mathlib), sampled on model and implementation", "8.3 C05",
          "Lean theorems (guards, corollaries of additivity) + exact FQ12 correspondence of the four Miller loops + bilinearity predicates"),
  "C06": ("proof: signature shape (v, low s), RFC 6979 nonce = specification, sign-then-recover returns privtopub(d) and the other v does not, verification equation — over the proved "
@@ -49,8 +49,8 @@ P = {
  "C11": ("proof: G1 and G2 codecs completely: round trip for every on-curve point and representative, canonicity of everything the decoders accept, exact accept sets, ValueError otherwise; "
          "the known finding K1 (G1 points with x = 0) is proved as a negative and listed in known_findings.jsonl", "8.3 C11",
          "Lean theorems about the codec model + correspondence on word tables"),
- "C12": ("proof (partial): BLS12-381 optimized pairing = reference pairing for every subgroup point and representative (theorem, incl. Miller-loop induction), split final "
-         "exponentiation = plain power, exp_by_p = p-th power, two-step product form — theorems; bn128 optimized (signed digits) = reference by exact FQ12 correspondence", "8.3 C12",
+ "C12": ("proof: optimized pairing = reference pairing for every subgroup point and projective representative, for BLS12-381 (Miller-loop induction) AND bn128 (signed digits: Miller's algorithm is "
+         "well defined up to vertical lines, killed by the final exponent), split final exponentiation = plain power, exp_by_p = p-th power, two-step product form — all theorems", "8.3 C12",
          "Lean theorems (Miller-loop refinement, exponent identities) + exact correspondence of the four pairings"),
  "C13": ("proof: every control path of the translated projective add/double/neg/eq/is_on_curve/linefunc (both optimized modules) and of secp256k1's Jacobian add/double equals the "
          "affine law, for all triples over any field, any representative", "8.3 C13",
